@@ -60,7 +60,22 @@ func (p *c05Probe) run(class string, api c05API, root *g.Type, tagKey string, do
 // (alone, on a pointer, overriding a document value). class valid: accepted exactly; fault: rejected.
 // Not fed: default= (the library does not hold a default against the field's own constraint; the
 // statement speaks of the document's values) and slice/map elements (constraints apply to the field).
-func (p *c05Probe) constraint(class string, k g.Kind, o g.Opts, text, what string) int {
+//
+// Every source is crossed with the optional forms: none, optional, optional=d with d present,
+// optional=!d with d absent (in the last two the field is effectively required and the constraint
+// must still hold: the library builds a per-call copy of the options there).
+func (p *c05Probe) constraint(class string, k g.Kind, o g.Opts, text, what string, forms ...string) int {
+	if len(forms) == 0 {
+		forms = []string{"none"}
+	}
+	n := 0
+	for _, form := range forms {
+		n += p.constraintForm(class, k, o, text, what, form)
+	}
+	return n
+}
+
+func (p *c05Probe) constraintForm(class string, k g.Kind, o g.Opts, text, what, form string) int {
 	type src struct {
 		name           string
 		api            c05API
@@ -103,20 +118,28 @@ func (p *c05Probe) constraint(class string, k g.Kind, o g.Opts, text, what strin
 		ft := g.L(k)
 		if sc.ptr {
 			ft = g.PtrTo(ft)
-			oo.Optional = !sc.env
 		}
 		oo.FromString = sc.fs
-		key := "v"
+		key, dkey := "v", "d"
 		if sc.api == c05Header {
-			key = "X-V"
+			key, dkey = "X-V", "X-D"
 		}
 		doc := map[string]any{}
+		switch form {
+		case "optional":
+			oo.Optional = true
+		case "optional=dep":
+			oo.Optional, oo.Dep = true, dkey
+			doc[dkey] = "on"
+		case "optional=!dep":
+			oo.Optional, oo.Dep, oo.DepNot = true, dkey, true
+		}
 		var env map[string]string
 		switch {
 		case sc.env:
 			oo.Env, env = c05FreshEnv(text)
 			oo.EnvVal = text
-			if sc.envAndDoc {
+			if sc.envAndDoc || oo.Dep != "" { // the dependency rule looks at the document: keep it consistent there
 				// the document offers a value too (an allowed one where we can tell); the environment wins
 				alt := text
 				if len(o.Options) > 0 {
@@ -134,11 +157,17 @@ func (p *c05Probe) constraint(class string, k g.Kind, o g.Opts, text, what strin
 		if sc.api == c05YAML && !g.YAMLExact(doc) {
 			continue
 		}
-		p.run(class, sc.api, c05One("V", key, ft, oo), sc.tag, doc, env, what+" via "+sc.name)
+		root := c05One("V", key, ft, oo)
+		if oo.Dep != "" {
+			root = g.StructOf(g.F("D", dkey, g.L(g.String), g.Opts{Optional: true}), g.F("V", key, ft, oo))
+		}
+		p.run(class, sc.api, root, sc.tag, doc, env, what+" via "+sc.name+" ("+form+")")
 		n++
 	}
 	return n
 }
+
+var c05OptForms = []string{"none", "optional", "optional=dep", "optional=!dep"}
 
 func c05One(name, key string, t *g.Type, o g.Opts) *g.Type {
 	return g.StructOf(g.F(name, key, t, o))
@@ -419,7 +448,12 @@ func TestVerifC05Shapes(t *testing.T) {
 							class = "valid"
 						}
 						what := fmt.Sprintf("%s range=%s value %s", k, rg, x)
-						m.Count("range-probes", int64(p.constraint(class, k, g.Opts{Range: rg}, x, what)))
+						forms := []string{"none"}
+						switch k {
+						case g.Int8, g.Uint8, g.Int64, g.Uint64, g.Float32, g.Float64:
+							forms = c05OptForms // the optional forms on half of the kinds keeps the matrix small
+						}
+						m.Count("range-probes", int64(p.constraint(class, k, g.Opts{Range: rg}, x, what, forms...)))
 						// optional=dep with the dependency present: the field is effectively required, the range still applies
 						dep := g.StructOf(g.F("D", "d", g.L(g.String), g.Opts{Optional: true}), g.F("V", "v", g.L(k), g.Opts{Optional: true, Dep: "d", Range: rg}))
 						p.run(class, c05JSON, dep, "json", map[string]any{"d": "on", "v": c05N(x)}, nil, what+" optional=d")
@@ -484,7 +518,46 @@ func TestVerifC05Shapes(t *testing.T) {
 				class = "fault"
 			}
 			what := fmt.Sprintf("%s options=%s|%s value %s", k, o[0], o[1], x)
-			m.Count("options-probes", int64(p.constraint(class, k, g.Opts{Options: []string{o[0], o[1]}}, x, what)))
+			m.Count("options-probes", int64(p.constraint(class, k, g.Opts{Options: []string{o[0], o[1]}}, x, what, c05OptForms...)))
+			// default= next to the constraint: the document value still decides
+			m.Count("options-probes", int64(p.constraint(class, k, g.Opts{Options: []string{o[0], o[1]}, HasDefault: true, Default: o[1]}, x, what+" default="+o[1], "none", "optional=dep", "optional=!dep")))
+		}
+	}
+
+	// default= under optional=<dep>: dependency and field both absent -> the default; both present -> the document value
+	p.family = "dep-default"
+	for _, k := range g.LeafKinds {
+		x := map[bool]string{true: "true", false: "5"}[k == g.Bool]
+		switch {
+		case k.IsFloat():
+			x = "0.5"
+		case k == g.String:
+			x = "s"
+		case k == g.Duration:
+			x = "1m30s"
+		}
+		for _, fs := range []bool{false, true} {
+			if fs && k == g.Duration {
+				continue
+			}
+			for _, not := range []bool{false, true} {
+				for _, api := range []c05API{c05JSON, c05YAML, c05Key} {
+					tag := map[c05API]string{c05JSON: "json", c05YAML: "json", c05Key: "key"}[api]
+					vo := g.Opts{Optional: true, Dep: "d", DepNot: not, HasDefault: true, Default: x, FromString: fs}
+					root := g.StructOf(g.F("D", "d", g.L(g.String), g.Opts{Optional: true}), g.F("V", "v", g.L(k), vo))
+					absent := map[string]any{}
+					if not {
+						absent["d"] = "on" // optional=!d: d present makes v optional
+					}
+					p.run("valid", api, root, tag, absent, nil, fmt.Sprintf("%s optional dep (not=%v) ,string=%v default=%s, field absent", k, not, fs, x))
+					present := map[string]any{"v": g.LeafDoc(k, x, fs)}
+					if !not {
+						present["d"] = "on"
+					}
+					p.run("valid", api, root, tag, present, nil, fmt.Sprintf("%s optional dep (not=%v) ,string=%v default=%s, field present", k, not, fs, x))
+					m.Count("dep-default-probes", 2)
+				}
+			}
 		}
 	}
 
